@@ -101,6 +101,7 @@ def shape(k, i):
 ALPHABET = ['plain', 'ctors', 'noctor', 'virtual', 'derived', 'overloads', 'statics', 'props', 'tclass', 'serial',
             'ignored', 'func', 'funcs', 'tfunc', 'enum', 'ns', 'funcs-split', 'plain-derived', 'rolenames']
 CORE = ['plain', 'derived', 'overloads', 'props', 'funcs', 'ns']
+ALPHA4 = ['plain', 'ctors', 'virtual', 'derived', 'overloads', 'statics', 'props', 'tclass', 'serial', 'funcs', 'ns', 'plain-derived']
 
 
 def build(seq):
@@ -355,7 +356,7 @@ def run(ctx):
     for n in range(1, L + 1):
         seqs += [list(s) for s in itertools.product(ALPHABET, repeat=n)]
     if ctx.thorough:
-        seqs += [list(s) for s in itertools.product(ALPHABET, repeat=4)]
+        seqs += [list(s) for s in itertools.product(ALPHA4, repeat=4)]
         for n in (5, 6):
             seqs += [list(s) for s in itertools.product(CORE, repeat=n)]
     else:
@@ -381,5 +382,5 @@ def run(ctx):
         'rule': 'every declaration sequence of length <= %d over the 19-letter alphabet%s (plus both serialization settings '
                 'where a serializable class occurs); each transition runs the real MatlabWrapper on the extended interface; '
                 'states = distinct canonical (next id, role multiset); the invariant is checked on every toolbox'
-                % ((4, ' and length 5..6 over the 6-letter core') if ctx.thorough else (3, ' and length 4 over the 6-letter core')),
+                % ((3, ', length 4 over a 12-letter sub-alphabet and length 5..6 over the 6-letter core') if ctx.thorough else (3, ' and length 4 over the 6-letter core')),
     }
